@@ -388,6 +388,6 @@ def run(chk: Check):
         _b1(chk, dict(NR=3, MaxSeed=2, MaxTemp=1, Grants="1,2,3,4,5,6,7", Depth=5), "3r-d5", 20000)
         _b1(chk, dict(NR=2, MaxSeed=3, MaxTemp=2, Grants="1,2,3,4,5,6,7,8", Depth=6), "2r-d6", 30000)
         _b1(chk, dict(NR=1, MaxSeed=5, MaxTemp=0, Grants="1,2,3,8", Depth=11), "1r-regrant-d11", 10000)
-        _algo(chk, dict(NR=2, MaxSeed=2, MaxTemp=1, Grants="1,2,3,4,5,6,7,8", Depth=5), "2r-d5", 6000)
+        _algo(chk, dict(NR=2, MaxSeed=2, MaxTemp=1, Grants="1,2,3,4,5,6,7,8", Depth=5), "2r-d5")
         _algo(chk, dict(NR=1, MaxSeed=4, MaxTemp=0, Grants="1,2,8", Depth=9), "1r-regrant-d9")
     chk.cov["exhaustive"] = True
